@@ -64,6 +64,8 @@ def generate(ck):
             pmax = float(rng.choice([30.0, 200.0, 205.0, 1000.0, 1500.0, wl.f(rng.uniform(200, 1500))]))
         else:
             pmax = float(rng.choice([30.0, 205.0, 3000.0, 14000.0, wl.f(rng.uniform(200, 14000))]))
+        if i % 8 == 5:
+            pmax = float(rng.choice([20000.0, 25000.0, 32000.0]))
         descs.append({"kind": "table", "comp": comp, "pmax": pmax})
     for i in range(ns):
         comp = wl.gas_composition(rng)
@@ -138,6 +140,21 @@ def run_case(ck, desc):
         _close(ck, "facade.oil_FVF", fl.oil_FVF(p), [oil.b_o_Standing(T, x, api, gg, gor) for x in p], desc, tol)
         _close(ck, "facade.oil_viscosity", fl.oil_viscosity(p), [oil.viscosity_beggs_robinson(T, x, api, gg, gor) for x in p], desc, tol)
         _close(ck, "facade.pressure_bubblepoint", [fl.pressure_bubblepoint()], [oil.pressure_bubblepoint_Standing(T, api, gg, gor)], desc, tol)
+        # the same array object edited in place between two calls on the same Fluid (a pressure grid
+        # updated by the caller's time loop): the second answer follows the array's CURRENT contents
+        p2 = p.astype(float).copy()
+        for nm, call, ref in (
+            ("oil_FVF", fl.oil_FVF, lambda x: oil.b_o_Standing(T, x, api, gg, gor)),
+            ("oil_viscosity", fl.oil_viscosity, lambda x: oil.viscosity_beggs_robinson(T, x, api, gg, gor)),
+            ("water_FVF", fl.water_FVF, lambda x: water.b_water_McCain(T, x)),
+            ("gas_FVF", lambda q: flg.gas_FVF(q, Tpc, ppc), lambda x: gas.b_factor_DAK(Tg, x, Tpc, ppc)),
+            ("gas_viscosity", lambda q: flg.gas_viscosity(q, Tpc, ppc), lambda x: gas.viscosity_Sutton(Tg, x, Tpc, ppc, gg)),
+        ):
+            p2[:] = p
+            call(p2)
+            p2 *= 0.83
+            p2 += 7.0
+            _close(ck, f"facade.{nm} (array edited in place between calls)", call(p2), [ref(x) for x in p2], desc, tol)
         ck.count("facade_objects")
         # the same object after its fields have been re-assigned (a parameter sweep that re-uses one
         # Fluid): every method must follow the object's CURRENT temperature, gravities, GOR, salinity
@@ -183,7 +200,15 @@ def run_case(ck, desc):
                 ck.count(f"table.rejections.{type(e).__name__}")
             else:
                 ck.violation("sutton.unknown-fluid-type-rejected", {"type": repr(bad), "through": "build_pvt_gas"}, desc)
-        tab = build_pvt_gas(arg, dry, maximum_pressure=pmax_arg)
+        try:
+            tab = build_pvt_gas(arg, dry, maximum_pressure=pmax_arg)
+        except ValueError as e:
+            if desc["pmax"] > 15000 and "different signs" in str(e):
+                # reduced pressures far beyond the Dranchuk-Abou-Kassem fit (p_r > 30): the Z-factor
+                # solver finds no root in its bracket and SAYS so - nothing is claimed there
+                ck.count("no_claim.z_factor_has_no_root_beyond_the_correlation_range")
+                return False, {"raised": repr(e)}
+            raise
         if comp != comp_before:
             ck.violation("table.inputs-unmodified", {}, desc)
         P = tab["pressure"].to_numpy()
@@ -192,6 +217,15 @@ def run_case(ck, desc):
             ck.violation("table.grid-10..<max", {"first": P[:2], "last": P[-2:], "n": len(P), "want_n": len(want_grid), "pmax": desc["pmax"]}, desc)
             return False, {"rows": len(P)}
         tol = 1e-12
+        if desc["pmax"] > 15000:
+            # far above the default range (maximum pressures of 20 000 .. 50 000 psi): the grid is
+            # checked in full above, the property columns on 40 rows spread over the table
+            ck.count("tables_beyond_the_default_range")
+            sel = np.unique(np.linspace(0, len(P) - 1, 40).astype(int))
+            _close(ck, "table.z-factor", tab["z-factor"].to_numpy()[sel], [gas.z_factor_DAK(T, x, Tpc, ppc) for x in P[sel]], desc, tol)
+            _close(ck, "table.Density", tab["Density"].to_numpy()[sel], [gas.density_DAK(T, x, Tpc, ppc, sg) for x in P[sel]], desc, tol)
+            _close(ck, "table.viscosity", tab["viscosity"].to_numpy()[sel], [gas.viscosity_Sutton(T, x, Tpc, ppc, sg) for x in P[sel]], desc, tol)
+            return True, {"rows": len(P), "pmax": desc["pmax"]}
         _close(ck, "table.z-factor", tab["z-factor"], [gas.z_factor_DAK(T, x, Tpc, ppc) for x in P], desc, tol)
         _close(ck, "table.Density", tab["Density"], [gas.density_DAK(T, x, Tpc, ppc, sg) for x in P], desc, tol)
         _close(ck, "table.viscosity", tab["viscosity"], [gas.viscosity_Sutton(T, x, Tpc, ppc, sg) for x in P], desc, tol)
